@@ -226,10 +226,12 @@ class PreSetup:
         if len(dag._ms_calls) != 1:
             raise ContractBindError("_pre_setup: expected exactly one make_subgraph call")
         t_, x_, r_, sub = dag._ms_calls[0]
-        okT = (getattr(t_, "resolved_from", None) is T) if hasT else (getattr(t_, "is_all_setup", False))
+        # C11: "runs only the setup nodes its selection needs": without targets the selection (roots / excluded) alone
+        # decides -- it must not be widened to every setup node of the DAG
+        okT = (getattr(t_, "resolved_from", None) is T) if hasT else (t_ is None)
         okX = (getattr(x_, "resolved_from", None) is X) if hasX else x_ is None
         okR = (getattr(r_, "resolved_from", None) is R) if hasR else r_ is None
-        C.check(z3.BoolVal(bool(okT and okX and okR)), f"{n}.C11.selection_is_targets_or_all_setup_nodes_minus_excluded_below_roots", {"C11", "C12"}, "post")
+        C.check(z3.BoolVal(bool(okT and okX and okR)), f"{n}.C11.selection_is_exactly_the_callers_targets_excluded_nodes_and_roots", {"C11", "C12"}, "post")
         if g is not sub:
             raise ContractBindError("_pre_setup: does not return the graph made by make_subgraph")
         subN = dag._ms_result_N
@@ -296,6 +298,42 @@ class Setup:
         C.check(z3.ForAll([x], z3.Implies(old[0][x], z3.And(newr.dom[x], newr.val[x] == old[1][x]))), f"{n}.post.C11.results_only_grow", {"C11", "C15"}, "post")
         C.check(z3.ForAll([x], z3.Implies(z3.And(newr.dom[x], z3.Not(old[0][x])), is_setup(x))), f"{n}.post.C11.only_setup_results_are_added", {"C11", "C15", "C13"}, "post")
         C.check(z3.BoolVal(newr is ex["out"][1]), f"{n}.post.C11.results_of_the_setup_run_are_kept", {"C11"}, "post")
+        return "return"
+
+
+class ExecutionSetup:
+    """DAGExecution.setup / AsyncDAGExecution.setup: the executor's own selection (targets, excluded nodes AND roots)
+    is what its setup() runs"""
+
+    module = "tawazi._dag.dag"
+    loops = {}
+
+    def __init__(self, flavour):
+        self.flavour = flavour
+        self.qualname = ("DAGExecution" if flavour == "sync" else "AsyncDAGExecution") + ".setup"
+
+    def run(self, f, case):
+        calls = []
+
+        class _Dag(Sym):
+            def setup(self_, target_nodes=None, exclude_nodes=None, root_nodes=None):
+                calls.append((target_nodes, exclude_nodes, root_nodes))
+                if self.flavour == "async":
+                    return SAwaitable(lambda: None)
+                return None
+
+        class _Ex(Sym):
+            pass
+
+        ex = _Ex()
+        ex.dag = _Dag()
+        ex.target_nodes, ex.exclude_nodes, ex.root_nodes = _Aliases("T"), _Aliases("X"), _Aliases("R")
+        r = f(ex)
+        if isinstance(r, SAwaitable):
+            r.run()
+        n = self.qualname
+        ok = len(calls) == 1 and calls[0][0] is ex.target_nodes and calls[0][1] is ex.exclude_nodes and calls[0][2] is ex.root_nodes
+        C.check(z3.BoolVal(ok), f"{n}.post.C11.runs_the_setup_nodes_of_the_executors_own_selection_roots_included", {"C11", "C12"}, "post")
         return "return"
 
 
